@@ -191,6 +191,12 @@ def uncachedWatch (a : Auth) : Bool := a.res.any fun p => p.2.status = .requeste
 def nextServer (a : Auth) (srv : Nat) : Option Nat :=
   ((List.range a.n).filter fun i => srv < i && !a.opened.contains i).head?
 
+/-- where a failure of `srv` makes the authority fall back to: only a failure of the ACTIVE server may move it
+    to a lower-priority server (the check added by /repo 98104fb, before the loop); then the loop over
+    fallbackToServer finds the first server after it without a channel -/
+def fallbackTarget (a : Auth) (srv : Nat) : Option Nat :=
+  if a.active != some srv then none else nextServer a srv
+
 /-- fallbackToServer on a server without a channel -/
 def fallbackTo (a : Auth) (i : Nat) : Out :=
   { auth := { a with opened := a.opened ++ [i], active := some i,
@@ -201,7 +207,7 @@ def fallbackTo (a : Auth) (i : Nat) : Out :=
 def handleFailure (a : Auth) (srv : Nat) (afterRecv : Bool) : Out :=
   if afterRecv then { auth := a }
   else if !uncachedWatch a then { auth := a, cbs := propagate a }
-  else match nextServer a srv with
+  else match fallbackTarget a srv with
     | some i => fallbackTo a i
     | none => { auth := a, cbs := propagate a }
 
